@@ -892,6 +892,17 @@ where
             return;
         }
 
+        // Skip a stale op: the map no longer holds this value entry because it has
+        // been replaced by a later insert, invalidated, or evicted as a victim. A
+        // later op for the key, if any, is behind this one in the queue. Admitting
+        // it would link a deque node for a key that is not in the map.
+        let kh = match self.cache.get(&kh.key) {
+            // Use the key object the map holds, so that the deque nodes and the map
+            // share one key even when this op comes from a later insert.
+            Some(e) if TrioArc::ptr_eq(&*e, &entry) => KeyHash::new(Arc::clone(e.key()), kh.hash),
+            _ => return,
+        };
+
         if self.has_enough_capacity(new_weight, counters) {
             // There are enough room in the cache (or the cache is unbounded).
             // Add the candidate to the deques.
@@ -904,7 +915,8 @@ where
                 // The candidate is too big to fit in the cache. Reject it.
                 #[cfg(mini_moka_verif)]
                 crate::verif::block_until("up.reject", &|| self.verif_shard_free(&*kh.key));
-                self.cache.remove(&Arc::clone(&kh.key));
+                self.cache
+                    .remove_if(&kh.key, |_, v| TrioArc::ptr_eq(v, &entry));
                 return;
             }
         }
@@ -946,10 +958,12 @@ where
             }
             AdmissionResult::Rejected { skipped_nodes: s } => {
                 skipped_nodes = s;
-                // Remove the candidate from the cache (hash map).
+                // Remove the candidate from the cache (hash map), unless a newer
+                // value has replaced it meanwhile.
                 #[cfg(mini_moka_verif)]
                 crate::verif::block_until("up.reject", &|| self.verif_shard_free(&*kh.key));
-                self.cache.remove(&Arc::clone(&kh.key));
+                self.cache
+                    .remove_if(&kh.key, |_, v| TrioArc::ptr_eq(v, &entry));
             }
         };
 
